@@ -31,6 +31,8 @@ def run(ck, an, tier):
     from rules import ledger
     from sa.report import Renamed
     from rules import C12
+    from rules import C17
+    C17.s4(ledger._Only(Renamed(ck, "C17:"), {"request-measure", "request-allocation", "request-fractional", "request-margin", "request-contracts", "request-absolute", "request-built"}), an)      # the request is in the unit the space was configured with
     C12.subclass_ctor_plumbing(Renamed(ck, "C12:"), an, "S1")      # the request a space builds carries the space's own configuration (fractional, margin, measure): a target in contracts is not silently truncated
     ledger.valuation_formulas(ledger._Only(Renamed(ck, "C05:"), {"weight-is-notional-over-nlv"}), an, {"weights"})     # the weights reported back are notional / NLV (what a target weight is compared with)
     ledger.trade_formulas(Renamed(ck, "C01:"), an, only={"trade-side", "trade-notional", "trade-cost_of_cash", "trade-quantity", "trade-contract"})   # what a trade of the computed size costs: a frictionless rebalance leaves the NLV where it was
